@@ -476,3 +476,78 @@ class WorkAmount(Contract):
 
     def sentinels(self, P, ctx, case):
         return [Clause("sentinel[false]", z3.BoolVal(False), hyps=asserted(ctx["solver"]), props=("C02",), kind="sound")]
+
+
+@register
+class SelectOverCumulative(Contract):
+    """an alternative-worker selection whose list contains a cumulative worker (the field accepts it):
+    capacity of the cumulative worker and consistency of the report (C02, C11), through the real solve()"""
+
+    target = "resource.SelectWorkers.__init__"
+    inlines = ("task.Task.add_required_resource", "solver.SchedulingSolver.build_solution", "solver.SchedulingSolver.solve")
+    props = ("C02", "C11")
+    diff = "eval"
+    bounded = "cumulative worker of size 2 and one plain worker in the list, 3 tasks; all integers symbolic"
+
+    def cases(self, tier):
+        return [dict(n=3)]
+
+    def scenario(self, ps, P, case):
+        P.assume(P.int("H") >= 1)
+        pb = ps.SchedulingProblem(name="pb", horizon=P.int("H"))
+        cw = ps.CumulativeWorker(name="cw", size=2)
+        w = ps.Worker(name="w")
+        tasks, sels = [], []
+        for i in range(case["n"]):
+            P.assume(P.int(f"t{i+1}_dur") >= 1)
+            t = ps.FixedDurationTask(name=f"t{i+1}", duration=P.int(f"t{i+1}_dur"))
+            sw = ps.SelectWorkers(list_of_workers=[cw, w], nb_workers_to_select=1)
+            t.add_required_resource(sw)
+            tasks.append(t)
+            sels.append(sw)
+        P.apply_pins(ps)
+        solver = ps.SchedulingSolver(problem=pb)
+        sol = solver.solve()
+        return dict(pb=pb, tasks=tasks, sol=sol, cw=cw, w=w)
+
+    def clauses(self, P, ctx, case):
+        sol = ctx["sol"]
+        if sol is False or sol is None:
+            return [Clause("state[no solution object without a sat answer]", z3.BoolVal(sol is False), props=("C02",), kind="state")]
+        T_ = sol.tasks
+        on_cw = [t for t in ctx["tasks"] if "cw" in T_[t.name].assigned_resources]
+        cs = []
+        # at most 2 tasks held by the cumulative worker share an instant
+        for S in itertools.combinations(on_cw, 3):
+            share = And(*[T(T_[a.name].start) < T(T_[b.name].end) for a in S for b in S if a is not b])
+            cs.append(Not(share))
+        out = [Clause("report[cumulative worker chosen through a selection: at most size tasks at any instant]", And(*cs) if cs else z3.BoolVal(True), props=("C02",), kind="sound", bounded=self.bounded, regions={"three tasks select the cumulative worker": z3.BoolVal(len(on_cw) >= 3)})]
+        mirrored = all(any(a[0] == t.name for a in sol.resources[rn].assignments) for t in ctx["tasks"] for rn in T_[t.name].assigned_resources if rn in sol.resources) and all(rn in sol.resources for t in ctx["tasks"] for rn in T_[t.name].assigned_resources)
+        out.append(Clause("report[a task lists a resource exactly when the resource lists the task]", z3.BoolVal(bool(mirrored)), props=("C11",), kind="equals", bounded=self.bounded, regions={"a task selects the cumulative worker": z3.BoolVal(len(on_cw) >= 1)}))
+        return out
+
+
+def _select_over_cumulative_native_search(case, params, ob):
+    """real library: three tasks all made to choose the cumulative worker (size 2) of their selection at the same
+    time; a returned solution is a capacity violation"""
+    import io, contextlib
+    from psvc import runner
+
+    ps = runner.native_ps()
+    with contextlib.redirect_stdout(io.StringIO()):
+        pb = ps.SchedulingProblem(name="pb", horizon=4)
+        cw = ps.CumulativeWorker(name="cw", size=2)
+        w = ps.Worker(name="w")
+        for i in range(3):
+            t = ps.FixedDurationTask(name=f"t{i+1}", duration=4)
+            sw = ps.SelectWorkers(list_of_workers=[cw, w], nb_workers_to_select=1)
+            t.add_required_resource(sw)
+            ps.ConstraintFromExpression(expression=sw._selection_dict[cw])
+        sol = ps.SchedulingSolver(problem=pb).solve()
+    if not sol:
+        return {"confirmed": False, "observation": {"solution": False}}
+    rows = {n: (t.start, t.end, t.assigned_resources) for n, t in sol.tasks.items()}
+    return {"confirmed": all("cw" in r[2] for r in rows.values()), "observation": {"tasks": rows, "resources": {n: r.assignments for n, r in sol.resources.items()}, "cumulative_size": 2}}
+
+
+SelectOverCumulative.native_search = staticmethod(_select_over_cumulative_native_search)
